@@ -220,6 +220,14 @@ def run_case(case):
     res = dict(key="c12-%d" % idx, violations=[], counters={}, nontrivial=False)
     cfg = scen.gen_config(rng, max_nd=4, max_lev=3)
     cfg["pool"] = True
+    if idx >= 100000:
+        # more data disks than parity levels, so that a stripe can be damaged beyond the redundancy
+        cfg["nd"] = max(cfg["nd"], 2)
+        cfg["nlev"] = min(cfg["nlev"], cfg["nd"] - 1)
+        if cfg["nlev"] < 3:
+            cfg["zmode"] = False
+        if cfg.get("splits"):
+            cfg["splits"] = cfg["splits"][:cfg["nlev"]]
     a, fs, state0, hist, cfg = build_synced_array(rng, "c12", cfg, "plain", rounds=rng.randint(0, 1), want_migration=False)
     try:
         os.makedirs(os.path.join(a.root, "import"), exist_ok=True)
@@ -238,6 +246,10 @@ def run_case(case):
         if r.rc != 0:
             raise scen.CaseError("setup sync failed")
         state_kind = ["healthy", "unsynced", "damaged", "lostdisk", "lostparity", "unsynced+damaged"][idx % 6]
+        if idx >= 100000:
+            # damage beyond the redundancy in a few stripes: the first fix leaves NAME.unrecoverable files behind, later
+            # restricted / filtered fixes meet them again (and must not make them disappear without saying so)
+            state_kind = "unrecoverable"
         if "unsynced" in state_kind:
             scen.mutate(fs, rng, rng.randint(3, 7), hostile=0.1)
             # the recorded version has zero nanoseconds, the file on disk does not
@@ -260,6 +272,26 @@ def run_case(case):
             if os.path.isfile(p2) and not os.path.islink(p2):
                 os.unlink(p2)
                 os.symlink(os.path.join(os.fsencode(a.root), b"created-through-dangling-link"), p2)
+        if state_kind == "unrecoverable":
+            from .. import dmg
+            c_u = a.load_content()
+            n2i_u = {nm.encode(): i for i, nm in enumerate(a.disk_names)}
+            cands_u = []
+            for pos, ents in sorted(c_u.stripe_map().items()):
+                fe = {}
+                for e in ents:
+                    if e[1] == "file" and e[4] == cnt.BLK and not fs.links_of(n2i_u[c_u.disk_name(e[0])], e[2].sub):
+                        fe.setdefault(e[0], e)
+                if len(fe) > a.nlev:
+                    cands_u.append(list(fe.values()))
+            if not cands_u:
+                raise scen.CaseError("no stripe with more file blocks than parity levels")
+            ndmg = 0
+            for fe in rng.sample(cands_u, min(len(cands_u), rng.randint(1, 2))):
+                for e in rng.sample(fe, a.nlev + 1):
+                    if dmg.damage_file_block(a, c_u, e[2], e[3], rng, rng.choice(["byte", "block"])) == "ok":
+                        ndmg += 1
+            res["counters"]["blocks_damaged_beyond_redundancy"] = ndmg
         if state_kind == "lostdisk":
             scen.wipe_disk(a, rng.choice(a.disks))
         if state_kind == "lostparity":
@@ -279,8 +311,37 @@ def run_case(case):
             if must not in cmds:
                 cmds.append(must)
         # mutating commands last so that read-only ones see the interesting state
-        cmds.sort(key=lambda c_: 0 if c_[0] in READONLY else (0.5 if ("RB_CUT" in c_[1] or (state_kind == "lostparity" and c_[0] == "fix" and c_[1][:1] in (["-d"], ["-m"], ["-f"]) and c_[1] != ["-d", "parity"])) else (1 if c_[0] in ("pool", "scrub", "touch", "rehash") else 2)))
+        if state_kind != "unrecoverable":
+            cmds.sort(key=lambda c_: 0 if c_[0] in READONLY else (0.5 if ("RB_CUT" in c_[1] or (state_kind == "lostparity" and c_[0] == "fix" and c_[1][:1] in (["-d"], ["-m"], ["-f"]) and c_[1] != ["-d", "parity"])) else (1 if c_[0] in ("pool", "scrub", "touch", "rehash") else 2)))
+        if state_kind == "unrecoverable":
+            tail = [("fix", ["UNREC_RANGE"]), ("fix", ["UNREC_RANGE"]), ("fix", ["-S", "0", "-B", "RB"]), ("scrub", ["-p", "full"]), ("_retime_unrecoverable", []), ("fix", ["-e"]),
+                    ("fix", ["-b"]), ("fix", ["-m"]), ("fix", ["-d", "DISK"]), ("fix", ["-f", "*a*"]), ("check", []), ("fix", [])]
+            rng.shuffle(tail)
+            cmds = [("status", []), ("fix", [])] + tail[:6 if tier == "quick" else 10]
         for cmd, args0 in cmds:
+            if cmd == "_retime_unrecoverable":
+                # the user looks at the saved copies (new time-stamp, same bytes)
+                for d_ in a.disks:
+                    for root_, _dirs, files_ in os.walk(os.fsencode(a.ddir(d_))):
+                        for fn_ in files_:
+                            if fn_.endswith(b".unrecoverable"):
+                                mt_ = fs.clock.next()
+                                os.utime(os.path.join(root_, fn_), ns=(mt_, mt_))
+                continue
+            if args0 == ["UNREC_RANGE"]:
+                # a range that covers the first block of a file now present only as NAME.unrecoverable, and not its last one
+                args0 = ["-S", "0", "-B", "1"]
+                try:
+                    c_r = a.load_content()
+                    n2i_r = {nm.encode(): i for i, nm in enumerate(a.disk_names)}
+                    cr_ = [f for f in c_r.files if len(f.blocks) >= 2 and
+                           os.path.exists(os.path.join(os.fsencode(a.ddir(n2i_r[c_r.disk_name(f.disk)])), f.sub + b".unrecoverable"))]
+                    if cr_:
+                        f_r = rng.choice(cr_)
+                        args0 = ["-S", str(f_r.blocks[0][0]), "-B", "1"]
+                        res["counters"]["fix_ranges_opening_an_unrecoverable_copy"] = res["counters"].get("fix_ranges_opening_an_unrecoverable_copy", 0) + 1
+                except Exception:
+                    pass
             disk = a.disk_names[rng.choice(a.disks)]
             try:
                 bmax = a.load_content().blockmax
@@ -428,6 +489,8 @@ def main(tier, seed, replay, jobs, scale):
     else:
         n = int((36 if tier == "quick" else 300) * scale)
         cases = [(seed, i, tier) for i in range(n)]
+        # arrays on which an earlier fix left NAME.unrecoverable files
+        cases += [(seed, 100000 + i, tier) for i in range(max(12, n // 3))]
     results = list(par.run_cases(run_case, cases, jobs))
     par.absorb(run, results)
     n = sum(r.get("nruns", 0) for _c, r in results)
